@@ -140,6 +140,15 @@ func genSel(r *Rng, keys, vals []string) Sel {
 
 func genSel0(r *Rng, keys, vals []string, isNs bool) Sel {
 	var s Sel
+	if isNs && r.P(8) {
+		// exactly the name label next to an expression: not "the namespace X" but "X, provided ..."
+		s.ML = []KV{{"kubernetes.io/metadata.name", Pick(r, nsPool)}}
+		s.ME = []Req{{Key: Pick(r, nsLblKeys), Op: Pick(r, []string{"Exists", "In", "NotIn"})}}
+		if s.ME[0].Op != "Exists" {
+			s.ME[0].Vals = []string{Pick(r, nsLblVals)}
+		}
+		return s
+	}
 	if isNs && len(candNs) > 0 && r.P(60) {
 		return selFor(r, Pick(r, candNs), vals)
 	}
